@@ -473,7 +473,7 @@ def obj_max_of(env):
     if 'objMax' in g:
         return g['objMax']
     from gens import evalsizes
-    return evalsizes.measure()['objMax']
+    return evalsizes.measure(strict=False)['objMax']
 
 
 def start(env):
